@@ -145,6 +145,27 @@ theorem run_any_schedule_same_view {g gr gc : Gc} {st : List Slot} {gp : Nat} (i
   · cases hr
     exact ⟨Iff.rfl, collect_preserves_liveness inv wt hc x, fun hl => ⟨rfl, hk x hl⟩⟩
 
+/-- **what survives depends only on the set of roots**, not on where on the stack they sit, how
+often they occur or what the non-reference words are: two collections of one heap from root
+lists with the same members leave the same object in every cell -/
+theorem collect_depends_on_root_set {g g1 g2 : Gc} {st1 st2 : List Slot} {gp1 gp2 : Nat} (inv : Inv g)
+    (wt1 : g.wellTyped (.collect st1 gp1) = true) (h1 : g.collect st1 gp1 = some g1)
+    (wt2 : g.wellTyped (.collect st2 gp2) = true) (h2 : g.collect st2 gp2 = some g2)
+    (hroots : ∀ r, r ∈ allRoots st1 gp1 ↔ r ∈ allRoots st2 gp2) (x : Nat) :
+    objAt g1.mem x = objAt g2.mem x := by
+  obtain ⟨_, e1, k1, _⟩ := C09.collect_exact inv wt1 h1
+  obtain ⟨_, e2, k2, _⟩ := C09.collect_exact inv wt2 h2
+  have hl : Live g.mem (allRoots st1 gp1) x ↔ Live g.mem (allRoots st2 gp2) x := by
+    unfold Live
+    constructor
+    · rintro ⟨a, b, r, hr, p⟩; exact ⟨a, b, r, (hroots r).mp hr, p⟩
+    · rintro ⟨a, b, r, hr, p⟩; exact ⟨a, b, r, (hroots r).mpr hr, p⟩
+  by_cases hx : Live g.mem (allRoots st1 gp1) x
+  · rw [k1 x hx, k2 x (hl.mp hx)]
+  · have n1 : ¬ (objAt g1.mem x).isSome = true := fun hs => hx ((e1 x).mp hs)
+    have n2 : ¬ (objAt g2.mem x).isSome = true := fun hs => hx (hl.mpr ((e2 x).mp hs))
+    cases ha : objAt g1.mem x <;> cases hb : objAt g2.mem x <;> simp_all
+
 /-- what a cell reachable before the collection points at is reachable after it with the same
 contents, to any depth: the whole reachable graph is isomorphic (identity map) -/
 theorem collect_preserves_reachable_graph {g g' : Gc} {st : List Slot} {gp : Nat} (inv : Inv g)
